@@ -30,16 +30,22 @@ func init() {
 			"or a random custom four-character type over letters of both cases, digits and punctuation (never a case variant of a named type); language in 7 tags incl. 2-letter, BCP-47 and a 35-char tag); " +
 			"per track the matching Set{AVC,HEVC,AAC,AC3,EC3,Wvtt,Stpp}Descriptor with parameter sets from the independent serializer ref/spsdim (sizes, cropping, chroma format, bit depth, profile/level, scaling lists, sub-layers varied; " +
 			"about a third of the video tracks get a list of 2..4 SPS with different ids: a copy with another level and/or independently drawn SPS of other picture size/profile/level, HEVC with up to 3 VPS) " +
-			"or harvested from the repository's test streams (a third of those with the first SPS of a second stream appended); optionally a call that must be rejected first, unsupported media type probes, and a resume of the history on a decoded copy. " +
+			"or harvested from the repository's test streams (a third of those with the first SPS of a second stream appended); optionally a call that must be rejected first, unsupported media type probes, and a resume of the history on a decoded copy (decoded by any of the three ways below). " +
+			"A quarter of the generated High-syntax AVC SPS carry a scaling matrix, two thirds of those with lists that end early (delta_scale -8 first = use the default list; or a delta giving next scale 0 after 1..size-1 values = tail repeats the last value), the rest written out in full. " +
+			"Call order: interleaved (AddEmptyTrack, its descriptor, next track; all grid cases), or for 40% of the random histories of 2+ tracks every AddEmptyTrack first and the descriptors afterwards in track order or in a drawn permutation. " +
+			"Between the steps (after an AddEmptyTrack before its descriptor, after a Set*Descriptor before the next step; each with probability 1/4) the init is serialised with a drawn mix of Size / Encode(io.Writer) / EncodeSW whose results must agree; the history then goes on and the final init is judged as always. " +
 			"Every init is encoded three ways that must agree byte for byte: Encode(io.Writer), EncodeSW into a fresh FixedSliceWriter, and EncodeSW into a caller-owned buffer pre-filled with 0xA5/0xFF/0x01/'x' (bits.NewFixedSliceWriterFromSlice, 16 bytes to spare). " +
 			"The first cases are a deterministic grid (media x language, AAC objType x frequency, AC-3/EC-3 fscod x acmod x lfe, every real parameter set x sample entry type x includePS, rejections, AVC profiles, 1..8 tracks); the rest are random. " +
-			"A case is non-trivial when the init was encoded, decoded by both DecodeFile and DecodeFileSR and a fragment for its track ids was read back; it is identified by the hash of the encoded init.",
+			"The encoded init is decoded three ways, each judged by all invariants, compared with the built tree and re-encoded: DecodeFile(bytes.Reader), DecodeFile(*bytes.Buffer) and DecodeFileSR(FixedSliceReader); the two io.Reader sources are private copies whose storage is reused (Buffer: Reset + Write; then all of it overwritten with 0xA5) as soon as DecodeFile has returned, before the tree is looked at. " +
+				"A case is non-trivial when the init was encoded, decoded by all three ways and a fragment for its track ids was read back; it is identified by the hash of the encoded init.",
 		Assumptions: []string{
 			"expected picture size = cropping formulas of ISO/IEC 14496-10 7.4.2.1.1 / ISO/IEC 23008-2 7.4.3.2.1 applied by ref/spsdim to the values it serialised (or, for harvested SPS, read with its own reader)",
 			"handler/media-header pairs: vide-vmhd, soun-smhd, subt-sthd, others nmhd (ISO/IEC 14496-12 8.4.5, 12.x; 14496-30 for wvtt/stpp)",
 			"language: a tag of three lower-case letters goes packed into mdhd, every other tag gives mdhd 'und' + elng with the tag (doc comment of CreateEmptyTrak)",
 			"several SPS in one Set{AVC,HEVC}Descriptor call: size, tkhd size and the profile/level/chroma/bit-depth fields of the configuration record must all be those of one supplied SPS (mp4ff: the first); which one is not fixed by the statement, so any single SPS accounting for all fields is accepted",
 			"a custom handler type is four bytes compared byte for byte with hdlr.handler_type (a four-character code is case sensitive, ISO/IEC 14496-12 4.2)",
+			"a tree decoded from an io.Reader (bytes.Reader, *bytes.Buffer) owns its data: the io.Reader contract copies into the callee's buffer and bytes.Buffer.Next/Bytes are only valid until the buffer is modified, so reusing the source afterwards must not change the tree (unchanged mp4ff: readBoxBody / io.ReadAll copy); DecodeFileSR over a FixedSliceReader documents sub-slices of the input, that source is left untouched",
+			"Size, Encode and EncodeSW describe the tree as it is at the moment of the call, also when the init was serialised earlier in the history (nothing in the API says a serialisation is final; Set*Descriptor are TrakBox methods that are meant to be called after AddEmptyTrack)",
 			"structural equality ignores StartPos and treats nil == empty; avcC chroma/bit-depth fields are ignored for profiles 66/77/88 where they have no serialised form",
 		},
 		Setup: func(env *runner.Env) error {
@@ -1254,20 +1260,55 @@ func (s *state) encodeInit(init *mp4.InitSegment, exps []expTrack, stage string)
 	return b
 }
 
-func (s *state) decode(b []byte, sr bool) *mp4.File {
+// decode reads the encoded init back with one of the three ways a caller has: DecodeFile from a
+// bytes.Reader, DecodeFile from a *bytes.Buffer, DecodeFileSR from a FixedSliceReader.
+//
+// The two io.Reader ways get a private copy of the bytes, and that storage is reused by the
+// "caller" as soon as DecodeFile has returned (Buffer: Reset + Write of other bytes; then the
+// whole backing array is overwritten with 0xA5): an io.Reader hands out copies of its data
+// (io.Reader contract; bytes.Buffer.Next/Bytes are "only valid until the next buffer
+// modification"), so the decoded tree has to be independent of what the source holds afterwards.
+// Everything the caller of decode then does with the tree (invariants, comparison with the built
+// tree, re-encoding) would see parameter sets / configurations that still point into it.
+// DecodeFileSR is different: bits.FixedSliceReader.ReadBytes documents that it returns a
+// sub-slice of the input, so that source is left alone.
+func (s *state) decode(b []byte, kind string) *mp4.File {
 	var f *mp4.File
 	var err error
-	s.c.Guard(func() {})
+	stage := "dec-" + kind
+	var priv []byte
+	var bb *bytes.Buffer
 	pi := s.c.Guard(func() {
-		if sr {
+		switch kind {
+		case "slicereader":
 			f, err = mp4.DecodeFileSR(bits.NewFixedSliceReader(b))
-		} else {
-			f, err = mp4.DecodeFile(bytes.NewReader(b))
+		case "buffer":
+			priv = append(make([]byte, 0, len(b)+8), b...)
+			bb = bytes.NewBuffer(priv)
+			f, err = mp4.DecodeFile(bb)
+		default:
+			priv = append([]byte(nil), b...)
+			f, err = mp4.DecodeFile(bytes.NewReader(priv))
 		}
 	})
-	stage := "dec-reader"
-	if sr {
-		stage = "dec-slicereader"
+	if bb != nil {
+		// the caller reuses its buffer for the next thing it reads
+		if left := bb.Len(); left != 0 && pi == nil && err == nil {
+			s.viol(stage, "source-not-consumed", "any", fmt.Sprintf("DecodeFile left %d of %d bytes unread in the bytes.Buffer", left, len(b)))
+		}
+		bb.Reset()
+		junk := make([]byte, len(b))
+		for i := range junk {
+			junk[i] = 0xEE
+		}
+		bb.Write(junk)
+	}
+	if priv != nil {
+		priv = priv[:cap(priv)]
+		for i := range priv {
+			priv[i] = 0xA5
+		}
+		s.c.Count("decode_source_storage_reused_after_"+kind, 1)
 	}
 	if pi != nil {
 		s.viol(stage, "panic-decode", "any", "decoding the encoded init panicked: "+pi.Value+" at "+pi.TopFrame)
@@ -1278,6 +1319,58 @@ func (s *state) decode(b []byte, sr bool) *mp4.File {
 		return nil
 	}
 	return f
+}
+
+// midEncode serialises the init in the middle of a history: Size / Encode(io.Writer) / EncodeSW in
+// the mix given by mask (1, 2, 4). What is written has to be the tree as it is at that moment:
+// the calls made together must agree (length == Size(), Encode == EncodeSW). The history goes
+// on afterwards and the final encode is judged as always, so a result of these calls that is
+// kept and handed out again after later steps shows there.
+func (s *state) midEncode(init *mp4.InitSegment, exps []expTrack, where string, mask int) {
+	c := s.c
+	var size uint64
+	var buf bytes.Buffer
+	var swBytes []byte
+	var err, err2 error
+	pi := c.Guard(func() {
+		if mask&1 != 0 || mask&4 != 0 {
+			size = init.Size()
+		}
+		if mask&2 != 0 {
+			err = init.Encode(&buf)
+		}
+		if mask&4 != 0 {
+			sw := bits.NewFixedSliceWriter(int(size))
+			err2 = init.EncodeSW(sw)
+			if err2 == nil {
+				err2 = sw.AccError()
+			}
+			swBytes = sw.Bytes()
+		}
+	})
+	c.Count("serialised_between_steps", 1)
+	c.Seen("serialised_between_steps", fmt.Sprintf("%s calls=%d (1 Size, 2 Encode, 4 EncodeSW)", where, mask))
+	if pi != nil {
+		s.viol("mid-encode", "panic-encode", where, "Size/Encode/EncodeSW "+where+" panicked: "+pi.Value+" at "+pi.TopFrame)
+		return
+	}
+	if err != nil || err2 != nil {
+		s.viol("mid-encode", "encode-error", where, fmt.Sprintf("%s: Encode: %v; EncodeSW: %v", where, err, err2))
+		return
+	}
+	bad := false
+	if mask&3 == 3 && uint64(buf.Len()) != size {
+		bad = true
+	}
+	if mask&4 != 0 && uint64(len(swBytes)) != size {
+		bad = true
+	}
+	if mask&6 == 6 && !bytes.Equal(buf.Bytes(), swBytes) {
+		bad = true
+	}
+	if bad {
+		s.viol("mid-encode", "encoded-length-vs-size", where, fmt.Sprintf("%s (%d tracks): Size() = %d, Encode wrote %d bytes, EncodeSW wrote %d bytes (calls made: mask %d)", where, len(exps), size, buf.Len(), len(swBytes), mask))
+	}
 }
 
 func run(c *runner.Ctx, idx int) {
@@ -1294,7 +1387,12 @@ func run(c *runner.Ctx, idx int) {
 	}
 	liveStage := "live"
 	var exps []expTrack
-	for i := range h.Tracks {
+	var trakIdx []int // exps[k] is init.Moov.Traks[trakIdx[k]]
+	var specIdx []int // exps[k] belongs to h.Tracks[specIdx[k]]
+	c.Seen("call_order", h.Order)
+
+	// addTrack: AddEmptyTrack of h.Tracks[i] (after an optional probe / resume); false = give up
+	addTrack := func(i int) bool {
 		t := &h.Tracks[i]
 		if h.Pre[i] != "" {
 			s.probeUnsupported(init, h.Pre[i][1:])
@@ -1303,19 +1401,24 @@ func run(c *runner.Ctx, idx int) {
 			// continue the history on a decoded copy of what was built so far
 			b := s.encodeInit(init, exps, "encode")
 			if b == nil {
-				return
+				return false
 			}
-			f := s.decode(b, h.ResumeSR)
+			f := s.decode(b, h.ResumeBy)
 			if f == nil {
-				return
+				return false
 			}
 			if f.Init == nil || f.Init.Moov == nil || f.Init.Moov.Mvex == nil || f.Init.Moov.Mvhd == nil {
-				s.viol("dec-reader", "file-init-not-set", "any", "File.Init (or its moov/mvex/mvhd) is nil after decoding the encoded init")
-				return
+				s.viol("dec-"+h.ResumeBy, "file-init-not-set", "any", "File.Init (or its moov/mvex/mvhd) is nil after decoding the encoded init")
+				return false
+			}
+			if len(f.Init.Moov.Traks) != len(init.Moov.Traks) {
+				s.viol("dec-"+h.ResumeBy, "track-ids", "multi-track", fmt.Sprintf("the decoded copy has %d traks, the init it was encoded from %d", len(f.Init.Moov.Traks), len(init.Moov.Traks)))
+				return false
 			}
 			init = f.Init
-			s.resumed = " (history resumed on a decoded copy of the init after track " + fmt.Sprint(len(exps)) + ")"
+			s.resumed = " (history resumed on a decoded copy of the init after AddEmptyTrack " + fmt.Sprint(len(exps)) + ", decoded by " + h.ResumeBy + ")"
 			c.Count("resumed_histories", 1)
+			c.Seen("resumed_by", h.ResumeBy+" "+h.Order)
 		}
 		me, supported := expectMedia(t.Media)
 		c.Seen("media_type", mediaSeenClass(t.Media))
@@ -1326,18 +1429,15 @@ func run(c *runner.Ctx, idx int) {
 		if pi != nil {
 			if !supported {
 				c.Seen("unsupported_media_outcome", "documented panic")
-				continue
+				return true
 			}
 			s.viol(liveStage, "panic-AddEmptyTrack", me.class, fmt.Sprintf("AddEmptyTrack(%d, %q, %q) panicked: %s at %s", t.Timescale, t.Media, t.Lang, pi.Value, pi.TopFrame))
-			if len(init.Moov.Traks) != before {
-				// half-added track: nothing sensible can follow
-				return
-			}
-			continue
+			// half-added track: nothing sensible can follow
+			return len(init.Moov.Traks) == before
 		}
 		if len(init.Moov.Traks) != before+1 || init.Moov.Traks[before] == nil {
 			s.viol(liveStage, "track-not-added", me.class, fmt.Sprintf("AddEmptyTrack(%d, %q, %q): Moov.Traks went from %d to %d entries", t.Timescale, t.Media, t.Lang, before, len(init.Moov.Traks)))
-			return
+			return false
 		}
 		trak := init.Moov.Traks[before]
 		// the init's own lookup between two AddEmptyTrack calls (a muxer asks for the trex of the track it
@@ -1353,11 +1453,31 @@ func run(c *runner.Ctx, idx int) {
 		e := expTrack{id: uint32(len(exps) + 1), spec: t, me: me}
 		if trak.Tkhd == nil || trak.Mdia == nil || trak.Mdia.Minf == nil || trak.Mdia.Minf.Stbl == nil || trak.Mdia.Minf.Stbl.Stsd == nil {
 			s.viol(liveStage, "structure", me.class, "new trak lacks tkhd/mdia/minf/stbl/stsd")
-			return
+			return false
+		}
+		exps = append(exps, e)
+		trakIdx = append(trakIdx, before)
+		specIdx = append(specIdx, i)
+		if h.Mid[i][0] {
+			s.midEncode(init, exps, "after AddEmptyTrack, before its descriptor", h.MidMask[i][0])
+		}
+		return true
+	}
+	// setDesc: the Set*Descriptor call of exps[k]
+	setDesc := func(k int) bool {
+		e := &exps[k]
+		t := e.spec
+		if trakIdx[k] >= len(init.Moov.Traks) || init.Moov.Traks[trakIdx[k]] == nil {
+			s.viol(liveStage, "track-not-added", e.me.class, fmt.Sprintf("Moov.Traks has no entry %d any more", trakIdx[k]))
+			return false
+		}
+		trak := init.Moov.Traks[trakIdx[k]]
+		if trak.Tkhd == nil || trak.Mdia == nil || trak.Mdia.Minf == nil || trak.Mdia.Minf.Stbl == nil || trak.Mdia.Minf.Stbl.Stsd == nil {
+			s.viol(liveStage, "structure", e.me.class, "trak lacks tkhd/mdia/minf/stbl/stsd")
+			return false
 		}
 		tr := fmt.Sprintf("track %d (%s): ", e.id, t.Media)
 		e.entry = s.applyDesc(trak, &t.Desc, tr)
-		exps = append(exps, e)
 		d := &t.Desc
 		if d.Kind == "avc" || d.Kind == "hevc" {
 			c.Seen("sps_source", map[bool]string{true: "generated", false: "repo-stream"}[d.Src == "generated"])
@@ -1368,6 +1488,9 @@ func run(c *runner.Ctx, idx int) {
 			c.Seen("video_class", fmt.Sprintf("%s %s incl=%v chroma=%d depth=%d/%d cropped=%v", d.Kind, d.SDType, d.IncludePS, d.Info.ChromaFormat, d.Info.BitDepthLuma, d.Info.BitDepthChroma, d.Info.Cropped))
 			if d.Kind == "avc" {
 				c.Seen("avc_profile", fmt.Sprintf("%d frame_mbs_only=%v", d.Info.ProfileIDC, d.Info.FrameMbsOnly))
+				for _, sc := range d.Scaling {
+					c.Seen("avc_sps_scaling_matrix", sc)
+				}
 			} else {
 				c.Seen("hevc_profile", fmt.Sprint(d.Info.HProfileIDC))
 				c.Seen("hevc_sei_count", fmt.Sprint(len(d.SEI)))
@@ -1381,6 +1504,49 @@ func run(c *runner.Ctx, idx int) {
 		}
 		if d.Kind == "ec3" {
 			c.Seen("ec3", fmt.Sprintf("fscod=%d acmod=%d lfe=%d dep=%v", d.Subs[0].Fscod, d.Subs[0].Acmod, d.Subs[0].Lfe, d.Subs[0].NumDep > 0))
+		}
+		if i := specIdx[k]; h.Mid[i][1] {
+			s.midEncode(init, exps, "after a Set*Descriptor call, before the next step", h.MidMask[i][1])
+		}
+		return true
+	}
+	if h.Order == "interleaved" {
+		for i := range h.Tracks {
+			n0 := len(exps)
+			if !addTrack(i) {
+				return
+			}
+			if len(exps) > n0 && !setDesc(n0) {
+				return
+			}
+		}
+	} else {
+		for i := range h.Tracks {
+			if !addTrack(i) {
+				return
+			}
+		}
+		// descriptors afterwards: in track order, or in the drawn order
+		var order []int
+		pos := map[int]int{} // spec index -> exps index
+		for k, i := range specIdx {
+			pos[i] = k
+		}
+		if h.Order == "tracks-first-permuted" {
+			for _, i := range h.DescOrder {
+				if k, ok := pos[i]; ok {
+					order = append(order, k)
+				}
+			}
+		} else {
+			for k := range exps {
+				order = append(order, k)
+			}
+		}
+		for _, k := range order {
+			if !setDesc(k) {
+				return
+			}
 		}
 	}
 	if h.Pre[len(h.Tracks)] != "" {
@@ -1433,10 +1599,10 @@ func run(c *runner.Ctx, idx int) {
 
 	// 4. both decoders
 	ok := true
-	var files [2]*mp4.File
-	for k, sr := range []bool{false, true} {
-		stage := []string{"dec-reader", "dec-slicereader"}[k]
-		f := s.decode(enc, sr)
+	var files [3]*mp4.File
+	for k, kind := range decodeKinds {
+		stage := "dec-" + kind
+		f := s.decode(enc, kind)
 		if f == nil {
 			ok = false
 			continue
